@@ -28,8 +28,16 @@ EXTRA_IMPORTS = "Frame Bridge"
 def gen_flat(rng, heavy):
     schema = gen.gen_schema(rng, 3)
     m = rng.choice([0, 1, 2, 5, 9, 14]) if not heavy else rng.randint(17, 300)
-    kind = rng.choice(["int_unsorted", "int_repeats", "int_sorted", "str", "desc_blocks", "unique_unsorted", "const"])
-    if kind == "int_unsorted":
+    kind = rng.choice(["int_unsorted", "int_repeats", "int_sorted", "str", "desc_blocks", "unique_unsorted", "const", "looks_dense"])
+    if kind == "looks_dense" and m >= 3:
+        # labels that LOOK like a default index to a counting test (first label 0, last label m-1) but repeat and have gaps
+        inner = sorted(rng.choice([0, 0, m - 1, rng.randint(0, m - 1)]) for _ in range(m - 2))
+        labels = [0] + inner + [m - 1]
+        if rng.random() < 0.4:
+            rng.shuffle(labels)
+    elif kind == "looks_dense":
+        kind, labels = "const", [4] * m
+    elif kind == "int_unsorted":
         labels = [rng.randint(-5, 12) for _ in range(m)]
     elif kind == "int_repeats":
         labels = [rng.choice([3, 7, 7, 1]) for _ in range(m)]
@@ -118,6 +126,12 @@ def generate(ctx):
             for _ in range(nr - 1):
                 k = rng.randint(0, 3)
                 rws.append(None if rng.random() < 0.2 else {nm: [gen.gen_value(rng, t, 0.2) for _ in range(k)] for nm, t in sch})
+            inp = ao.mk_input(rng, content=(sch, rws), recipes=[l for l in fo.LAYOUTS if l != "history"])
+        elif direction == "flatten_pack" and (i // 6) % 3 == 0:
+            # as many elements as rows, but NOT one per row: empty / missing rows balanced by longer ones
+            sch = gen.gen_schema(rng, 3)
+            lens = rng.choice([[2, 0, 1], [0, 2, 1], [3, 0, 0, 1], [2, None, 1], [0, 0, 3], [1, 2, 0], [2, 0, 2, 0], [None, 3, 0]])
+            rws = [None if k is None else {nm: [gen.gen_value(rng, t) for _ in range(k)] for nm, t in sch} for k in lens]
             inp = ao.mk_input(rng, content=(sch, rws), recipes=[l for l in fo.LAYOUTS if l != "history"])
         else:
             inp = ao.mk_input(rng, max_rows=7 if ctx.tier == "quick" else 12, recipes=fo.LAYOUTS)
